@@ -30,7 +30,7 @@ func (f *FnEnc) mapHeapSort(key string) string {
 	panic("bad map heap key " + key)
 }
 
-func sortKey(s string) string   { return className(s) }
+func sortKey(s string) string { return className(s) }
 func unsortKey(s string) string {
 	switch s {
 	case "Bool":
